@@ -2605,9 +2605,13 @@ func (c *Conn) negotiateVersionClient(ctx context.Context) ([]*dtlsflight.Packet
 
 	// No FSM runs yet, so this loop owns the retransmission of the ClientHello
 	// (RFC 6347 Section 4.2.4 timer, with the configured interval and backoff).
+	// The timer runs from one transmission to the next: a datagram that does
+	// not answer the ClientHello must not restart it, or a trickle of garbage
+	// keeps a lost ClientHello from ever being sent again.
 	retransmitInterval := c.handshakeConfig.InitialRetransmitInterval
+	nextRetransmit := time.Now().Add(retransmitInterval)
 	for {
-		readCtx, cancelRead := context.WithTimeout(ctx, retransmitInterval)
+		readCtx, cancelRead := context.WithDeadline(ctx, nextRetransmit)
 		err := c.readAndBufferNoFSM(readCtx)
 		cancelRead()
 		if err != nil {
@@ -2624,6 +2628,7 @@ func (c *Conn) negotiateVersionClient(ctx context.Context) ([]*dtlsflight.Packet
 				}
 				retransmitInterval = doubled
 			}
+			nextRetransmit = time.Now().Add(retransmitInterval)
 
 			continue
 		}
